@@ -475,6 +475,17 @@ class Session:
                 for tag, lst in (('A', fresh_first), ('B', core)):
                     sv = z3.With('qfnra-nlsat', **{'nlsat.reorder': False}).solver(); sv.set('timeout', int(sl * 1000)); sv.add(*lst)
                     t = time.time(); r = str(guarded_check(sv, sl)); tot += time.time() - t; used.append(tag)
+                    if r == 'sat' and len(core) < len(asserts):
+                        # the model only covers the cone of influence of the goal: extend it to a model of ALL assertions (the dropped ones share no variable with it),
+                        # otherwise a replay would run on inputs that violate the precondition
+                        mc = sv.model(); fix = []
+                        for d_ in mc.decls():
+                            if d_.arity() == 0:
+                                try: fix.append(d_() == mc[d_])
+                                except Exception: pass
+                        r2, m2, dt2, _ = _z3_check(list(asserts) + fix, max(5.0, min(20.0, timeout / 4.0))); tot += dt2
+                        if r2 == 'sat': return 'sat', m2, tot, 'z3 qfnra-nlsat(reorder=false;%s)+model completion' % ''.join(used)
+                        return 'unknown', None, tot, 'z3 qfnra-nlsat(reorder=false;%s): model of the goal cone could not be extended to the dropped hypotheses' % ''.join(used)
                     if r != 'unknown': return r, (sv.model() if r == 'sat' else None), tot, 'z3 qfnra-nlsat(reorder=false;%s)' % ''.join(used)
             r, m, dt2, _ = _z3_check(core, max(1.0, timeout - tot)); return r, m, tot + dt2, 'z3 qfnra-nlsat(reorder=false;ABAB)+z3'
         if solver == 'qfnra':
@@ -519,7 +530,7 @@ class Session:
                         l_ = z3.RealVal(l_) if isinstance(l_, (int, float)) else l_; r_ = z3.RealVal(r_) if isinstance(r_, (int, float)) else r_
                         gap = {'eq': z3.Or(l_ - r_ >= 0.5, r_ - l_ >= 0.5), 'le': l_ - r_ >= 0.5, 'lt': l_ - r_ >= 0.5, 'ge': r_ - l_ >= 0.5, 'gt': r_ - l_ >= 0.5}[rgoal.kind]
                         box = [z3.And(v >= -8, v <= 8) for v in vars_ if z3.is_real(v)]
-                        extra = [gap] + box + ([rgoal.guard] if getattr(rgoal, 'guard', None) is not None else [])
+                        extra = box + ([rgoal.guard] if getattr(rgoal, 'guard', None) is not None else []) + [gap]        # the goal atom stays the LAST assertion (the 'nra' front end keeps its cone of influence)
                         r2, m2, dt2, used2 = s.query(list(hyps) + extra, min(timeout, 30), solver, vars_)
                         rec['robust_cex'] = r2
                         if r2 == 'sat':
